@@ -33,7 +33,8 @@ mod methods {
 
     fn timestamp(arg: u64) -> CelResult<DateTime<Utc>> {
         use chrono::MappedLocalTime;
-        match Utc.timestamp_opt(arg as i64, 0) {
+        let secs = i64::try_from(arg).map_err(|_| CelError::value("Invalid timestamp value"))?;
+        match Utc.timestamp_opt(secs, 0) {
             MappedLocalTime::Single(s) => Ok(s),
             _ => Err(CelError::value("Invalid timestamp value")),
         }
